@@ -27,7 +27,8 @@ TRUSTED = [
 ASSUMPTIONS = [
     "tokens reach the tree builder with ns = \"\" in every QualName (what the xml5ever tokenizer produces)",
     "tok-mode oracle: tags with two attributes of one qualified name are not judged (a tokenizer that removes "
-    "duplicates never emits them; on the pinned tree `xmlns:p` twice does get through — judged in src mode)",
+    "duplicates never emits them — C16_tok_no_dup_qname_fixed; before /repo commit 7cefeea `xmlns:p` twice did get "
+    "through, which src mode judges)",
     "spec choices where the property is silent: unbound or un-declared prefix ⇒ empty namespace (upstream reports a "
     "parse error); declarations with the xmlns URI as value or for the prefixes xml/xmlns have no effect; a "
     "declaration on an end tag is visible to that end tag's own name; any other prefix may be bound to the xml URI",
@@ -45,7 +46,8 @@ RULE = ("xmltb cases: (tok) token lists fed straight into XmlTreeBuilder, (src) 
         "names/namespaces/depth, attribute namespaces and order, and the drop clause (a missing attribute is a "
         "declaration or has an earlier attribute with the same expanded name). non-trivial = at least one element "
         "created; distinct = distinct (case, output)")
-EXPLANATION = ("theorems relate the model of the tree builder to the recursive scope resolver S.resolve for all token "
+EXPLANATION = ("model configurations: TokCfg/TbCfg.current = fixed (= /repo since commits 7cefeea, c6f2538); the pre-fix "
+               "behaviour stays provable as TokCfg.code / TbCfg.code (witness theorems). Theorems relate the model of the tree builder to the recursive scope resolver S.resolve for all token "
                "lists and prove the namespace-stack balance invariant and panic freedom by induction over token lists")
 
 U, V, W = "urn:u", "urn:v", "urn:w"
